@@ -89,7 +89,10 @@ class ProgError(Exception):
 
 
 class ProgBaseError(BaseException):
-    """Custom BaseException (not Exception)."""
+    """Custom BaseException (not Exception); falsy (see ErrA)."""
+
+    def __bool__(self):
+        return False
 
 
 class ProgRecursionError(RecursionError):
@@ -97,11 +100,14 @@ class ProgRecursionError(RecursionError):
 
 
 class ErrA(Exception):
-    pass
+    # an exception object may well be falsy (here: a container-like error without items); it is raised all the same
+    def __len__(self):
+        return 0
 
 
 class ErrB(BaseException):
-    pass
+    def __bool__(self):
+        return False
 
 
 EXC_POOL = {
